@@ -23,12 +23,19 @@ pub fn gen(rng: &mut Rng, tier: Tier, out: &mut Vec<String>) {
         // independent triangles (3 vertices each) plus, sometimes, shared vertices
         let mut verts: Vec<Vec<f32>> = vec![];
         let mut tris: Vec<[usize; 3]> = vec![];
+        // clip space is scale invariant: a fifth of the scenes have the whole homogeneous vectors scaled
+        // by 1e3..1e8 (all depths huge, 1/w down to 1e-8) or by 1e-8..1e-3 (all w tiny)
+        let scale = match i % 10 {
+            3 => 10f32.powf(rng.f32_in(3.0, 8.0)),
+            7 => 10f32.powf(rng.f32_in(-8.0, -3.0)),
+            _ => 1.0,
+        };
         for _ in 0..ntris {
             let inside_only = rng.chance(1, 3);
             let base = verts.len();
             for _ in 0..3 {
                 let p = gen_clip_vertex(rng, !inside_only);
-                let mut v = p.to_vec();
+                let mut v: Vec<f32> = p.iter().map(|c| c * scale).collect();
                 for _ in 0..k {
                     v.push(if rng.bool() { rng.range(-8, 9) as f32 } else { rng.f32_in(-50.0, 50.0) });
                 }
